@@ -145,6 +145,10 @@ def run(ctx):
             # character literal for a blank
             k = rng.randrange(len(texts) + 1)
             texts = texts[:k] + [rng.choice(['(display "left   \n right\t\n")', '(display (list (char? #\ \n) "a \n"))', '(display "x\n\ny ")'])] + texts[k:]
+        if rng.random() < 0.3:
+            # a form that is rejected when it is READ (not when it runs): everything before it has run and written its output
+            k = rng.randrange(1, len(texts) + 1)
+            texts = texts[:k] + [rng.choice([")", "#q", "(if)", "(lambda)", "(display 1 . )", "(let ((x)) x)", "(define)", "12ab"])]
         if any(len(t) > 400 for t in texts):
             continue
         uses_lib = rng.random() < 0.2
